@@ -235,6 +235,18 @@ func (s *state) CheckBody(ctx context.Context, hdr textproto.Header, _ buffer.Bu
 				CheckName:    modName,
 			}})
 	}
+	// RFC 5322 allows at most one From and one Sender field. hdr.Get returns
+	// only the first one, any further field would go unchecked while still
+	// being shown to the recipient.
+	if len(hdr.Values("From")) > 1 {
+		return s.c.errAction.Apply(module.CheckResult{
+			Reason: &exterrors.SMTPError{
+				Code:         550,
+				EnhancedCode: exterrors.EnhancedCode{5, 7, 0},
+				Message:      "Multiple From header fields are not allowed",
+				CheckName:    modName,
+			}})
+	}
 	list, err := mail.ParseAddressList(fromHdr)
 	if err != nil || len(list) == 0 {
 		return s.c.errAction.Apply(module.CheckResult{
@@ -255,6 +267,16 @@ func (s *state) CheckBody(ctx context.Context, hdr textproto.Header, _ buffer.Bu
 				Message:      "Multiple From addresses are not allowed",
 				CheckName:    modName,
 				Err:          err,
+			}})
+	}
+
+	if len(hdr.Values("Sender")) > 1 {
+		return s.c.errAction.Apply(module.CheckResult{
+			Reason: &exterrors.SMTPError{
+				Code:         550,
+				EnhancedCode: exterrors.EnhancedCode{5, 7, 0},
+				Message:      "Multiple Sender header fields are not allowed",
+				CheckName:    modName,
 			}})
 	}
 
